@@ -3,7 +3,7 @@
    Proofs: proofs/FormatSteps.v (element() cut into blocks), proofs/FormatChunks.v (chunk view of
    the stream), proofs/FormatCosmetic.v, proofs/FormatProofs.v. *)
 From Emmet Require Import lib.Base model.MarkupConvert model.OutStream model.FormatHtml
-     proofs.FormatSteps proofs.FormatProofs proofs.FormatChunks proofs.FormatCosmetic.
+     proofs.FormatSteps proofs.FormatProofs proofs.FormatChunks proofs.FormatTabstops proofs.FormatCosmetic.
 
 (* SPEC.
    fchunks st      the callback invocations of a run, positions erased: CT text | CF index placeholder
@@ -21,6 +21,41 @@ Theorem format_cosmetic c1 c2 children :
   content (html_format c1 children) = content (html_format c2 children).
 Proof. exact (format_cosmetic_lemma c1 c2 children). Qed.
 Print Assumptions format_cosmetic.
+
+(* comments_additive.  Full statement: enabling comments only adds comment text before/after
+   commented elements.
+   Adds x y        x is y with additional TEXT items inserted; nothing of y is changed, dropped or reordered
+   with_comment e c   the option record c with comment.enabled := e
+   all_nodes P n   P holds at every node of the tree n;  attrs_plain n: no attribute value of n has a ${..} field
+   Proved for ALL trees whose attribute values carry no explicit fields and all option records
+   (any comment templates / triggers).  _partial: when a commented attribute value (id/class)
+   contains a field, the comment repeats that field and every later tabstop number shifts; this
+   theorem compares tabstop numbers as well (the statement speaks about text only), so those
+   trees are excluded; where in the output the added text sits (right before / after the
+   element) is not expressed by [Adds]. *)
+Theorem comments_additive_partial c children :
+  ws_fmt (oc_fmt c) ->
+  Forall (all_nodes (fun n => attrs_plain n = true)) children ->
+  Adds (content (html_format (with_comment true c) children)) (content (html_format (with_comment false c) children)).
+Proof. exact (fun Hf => comments_additive_lemma c Hf children). Qed.
+Print Assumptions comments_additive_partial.
+
+(* selfclose_local.  Full statement: the self-closing style changes only the ` /` or `/` before `>`.
+   with_style s c     the option record c with output.selfClosingStyle := s
+   close_mark c       the content item of the end of a self-closed tag: ">" (html), "/>" (xhtml: the
+                      blank of " />" is a leading blank of its chunk, and xml)
+   RelS c s1 s2 x y   x and y have the same length and are equal item by item, except that where x has
+                      the closing mark of style s1, y has the closing mark of style s2
+   Proved for ALL trees, ALL pairs of styles and ALL option records with compactBoolean off.
+   _partial: (1) with output.compactBoolean on the statement is false on the code (theorem
+   selfclose_compact_boolean_refuted below, known finding C12:selfclose-compact-boolean);
+   (2) compared is the content: chunks made of blanks only and leading blanks are not compared
+   (the two runs have identical cosmetic options). *)
+Theorem selfclose_local_partial c s1 s2 children :
+  ws_fmt (oc_fmt c) -> oc_compact_boolean c = false ->
+  RelS c s1 s2 (content (html_format (with_style s1 c) children)) (content (html_format (with_style s2 c) children)).
+Proof. exact (fun Hf Hc => selfclose_local_lemma c s1 s2 Hf Hc children). Qed.
+Print Assumptions selfclose_local_partial.
 
 (* level_restored: the indentation level (the number of indent units a line break made now
    would be followed by) is the same after an element as before it, for ALL trees, sibling
@@ -51,3 +86,28 @@ Proof.
   split; [repeat split|]. split; [repeat split|]. split; [repeat split|].
   split; [vm_compute; discriminate|vm_compute; reflexivity].
 Qed.
+
+(* the faithful model violates selfclose_local under compactBoolean: <input disabled/> *)
+Definition ex_cb : oconfig :=
+  mkOconfig (mkOfmt [9] [] [10])%N [] [] [] true false [] [] 3 true [] s_html [] false [] [] [] false None None.
+Definition ex_input : list anode :=
+  [ANode (Some [105;110;112;117;116]%N) None None
+         (Some [mkAAttr (Some [100;105;115;97;98;108;101;100]%N) None VRaw true false false]) [] true].
+Theorem selfclose_compact_boolean_refuted :
+  ws_fmt (oc_fmt ex_cb) /\
+  ~ RelS ex_cb s_html s_xhtml (content (html_format (with_style s_html ex_cb) ex_input))
+                              (content (html_format (with_style s_xhtml ex_cb) ex_input)).
+Proof.
+  split; [repeat split|]. intros H. apply Forall2_len in H. vm_compute in H. discriminate.
+Qed.
+Print Assumptions selfclose_compact_boolean_refuted.
+
+Example comments_nonvacuous :
+  let t := [ANode (Some [100;105;118]%N) None None
+                  (Some [mkAAttr (Some [105;100]%N) (Some [VStr [97]%N]) VRaw false false false]) [] false] in
+  let c := mkOconfig (mkOfmt [9] [] [10])%N [] [] [] true false [] [] 3 false [] s_html [] false [[105;100]]%N []
+                     [10;60;33;45;45;32;47;91;35;73;68;93;32;45;45;62]%N false None None in
+  Forall (all_nodes (fun n => attrs_plain n = true)) t /\
+  length (content (html_format (with_comment true c) t)) = 12 /\
+  length (content (html_format (with_comment false c) t)) = 8.
+Proof. cbv zeta. split; [repeat constructor|]. vm_compute. split; reflexivity. Qed.
